@@ -150,9 +150,7 @@ func newPwWorker(spin bool) (*pwWorker, error) {
 	w := &pwWorker{byGID: map[int64]int{}, connOf: map[int]int{}, lastSeq: map[int64]int64{},
 		lastEnd: map[int64]int64{}, tested: map[int]bool{}, marks: map[string]int{}, ungated: map[int]bool{}, logAll: map[int]bool{},
 		arrived: make(chan int, 64), parked: map[int]*pwGate{}}
-	port := t38.FreePort()
-	t38.SetHook(port, w.hook)
-	srv, err := t38.Start(t38.Options{Port: port, Spinlock: spin})
+	srv, err := t38.Start(t38.Options{Hook: w.hook, Spinlock: spin})
 	if err != nil {
 		return nil, err
 	}
